@@ -28,6 +28,7 @@ PROPS = {
     "C12": dict(
         pid=12,
         coq=["Common/ListLemmas.v", "Lifo/Lin.v", "Lifo/Model.v", "Lifo/Spec.v", "Lifo/Proofs.v",
+             "Lifo/ProofsMon.v", "Lifo/ProofsMon2.v",
              "Lifo/LLModel.v", "Lifo/LLSpec.v", "Lifo/LLProofs.v", "Lifo/Props_C12.v"],
         props_file="Lifo/Props_C12.v",
         models=[
@@ -44,7 +45,9 @@ PROPS = {
             "LinkedList: one critical section of l.mtx is one model step (Go's sync.RWMutex trusted)",
             "Go 1.26.8 testing/synctest (exact quiescence), goroutine-id parsing in the harness; the free-running streams run outside a bubble",
             "monitor clause 1 uses an executable search over linearization orders (lin_search, histories with <= 10 calls); the search is a monitor, "
-            "not a proof: the proof of linearizability is c12_lifo_linearizable / c12_linkedlist_linearizable via Lin.lp_run_linearizable",
+            "not a proof: the proof of linearizability is c12_lifo_linearizable / c12_linkedlist_linearizable via Lin.lp_run_linearizable; "
+            "that the search (and clauses 2-4) accept every observation of the lifo model, for all configs and event lists, is "
+            "c12_lifo_model_satisfies_monitors (no longer trusted)",
         ],
         assumptions=[
             "pushed values are non-zero in AtomicLIFO histories (Pop returns the zero value for 'empty'); c12_pop_zero_iff_empty_at_lp states the value form under this premise",
